@@ -65,11 +65,19 @@ Definition wfun_of (k : wkind) (tbl : list (Z * Z)) : f64 -> f64 :=
 Inductive fkind := KF32 | KF64 | KI16.
 Definition fmt_of (k : fkind) : sfmt := match k with KF32 => fmt_f32 | KF64 => fmt_f64 | KI16 => fmt_i16 end.
 
+(* provided Iterator methods exercised on the three iterators (semantics: Section RunI below) *)
+Inductive iop :=
+| INext | INth (k : Z) | ILast | ILastRef | ICount | ICountRef | ISkip (k : Z) | IStepBy (k t : Z)
+| ICollect | IFold
+| IWinNth (k : Z) | IWinSkip (k : Z) | IWinTakeLast (k : Z) | IWinStepBy (k t : Z)
+| IChunkNth (k : Z) | IChunkSkip (k : Z) | IChunkTakeLast (k : Z).
+
 Inductive wcase :=
 | WCase (wk : wkind) (fk : fkind) (nch b h maxn : Z) (data : list (list Z))
     (* data: the L frames, each nch samples (bit patterns for floats, values for i16);
        maxn: number of next() calls the harness makes at most *)
-| HCase (ps : list Z) (qs : list Z).
+| HCase (ps : list Z) (qs : list Z)
+| ICase (wk : wkind) (fk : fkind) (nch b h np : Z) (data : list (list Z)) (ops : list iop).
     (* ps: f32 phases (bits), qs: i16 phases — the dasp_window functions through the trait *)
 
 Definition n (z : Z) : nat := Z.to_nat z.
@@ -153,6 +161,71 @@ Definition run_hcase (ps qs hv hq : list Z) : list (list Z) :=
     (* the f64 phases the i16 path evaluates Hann at *)
     117 :: map (fun q => F64.bits (f32_to_f64 (i16_to_f32 q))) qs ].
 
+(* ---- provided Iterator methods on the three iterators (default semantics = repeated next) ---- *)
+Section RunI.
+Variable F : sfmt.
+Variable wf : f64 -> f64.
+Variable nch : nat.
+Variable wvals : list Z.     (* values of Window::<f64,W>::new(b): wf at the successive phases *)
+Notation W := (windower (list (Smp F))).
+
+Definition enc_c (b : nat) (c : list (list (Smp F))) : list Z := enc_chunk F (wtake F wf nch (b + 1) c b).
+Definition enc_oc (b : nat) (o : option (list (list (Smp F)))) : list Z :=
+  match o with None => [3] | Some c => enc_c b c end.
+Definition enc_err {X} (r : res X) : list (list Z) :=
+  match r with Panic k => [[8; zn (panic_code k)]] | _ => [[-2]] end.
+Definition nth_z (l : list Z) (i : nat) : list Z := match nth_error l i with Some v => [6; v] | None => [-3] end.
+Definition two_last (l : list (list (Smp F))) : list Z :=
+  2 :: map (enc F) (concat (skipn (length l - 2) l)).
+
+(* one op: observations, new windower state, new position of the persistent Window iterator *)
+Definition istep (w : W) (pos : nat) (o : iop) : list (list Z) * W * nat :=
+  let b := bin w in
+  let fuel := Datatypes.S (length (frames w)) in
+  let first_chunk := match w_next w with Ok (Some (c, _)) => Some c | _ => None end in
+  let wd c := windowed_take A64 wf (Smp F) (Flt F) (conv F) (smul F) (equil F) nch in
+  match o with
+  | INext => match w_nth 0 w with Ok (oc, w') => ([enc_oc b oc], w', pos) | r => (enc_err r, w, pos) end
+  | INth k => match w_nth (n k) w with Ok (oc, w') => ([enc_oc b oc], w', pos) | r => (enc_err r, w, pos) end
+  | ISkip k => match w_nth (n k) w with Ok (oc, _) => ([enc_oc b oc], w, pos) | r => (enc_err r, w, pos) end
+  | ILast => match w_last fuel w with Ok (oc, _) => ([enc_oc b oc], w, pos) | r => (enc_err r, w, pos) end
+  | ILastRef => match w_last fuel w with Ok (oc, w') => ([enc_oc b oc], w', pos) | r => (enc_err r, w, pos) end
+  | ICount | IFold => match w_count fuel w with Ok (c, _) => ([[4; zn c]], w, pos) | r => (enc_err r, w, pos) end
+  | ICountRef => match w_count fuel w with Ok (c, w') => ([[4; zn c]], w', pos) | r => (enc_err r, w, pos) end
+  | IStepBy k t => match w_step_by_take (n k) (n t) w with
+                   | Ok (cs, _) => ([5; zn (length cs)] :: map (enc_c b) cs, w, pos) | r => (enc_err r, w, pos) end
+  | ICollect => match w_drain fuel w with
+                | Ok (cs, _) => ([5; zn (length cs)] :: map (enc_c b) cs, w, pos) | r => (enc_err r, w, pos) end
+  | IWinNth k => ([nth_z wvals (pos + n k)], w, (pos + n k + 1)%nat)
+  | IWinSkip k => ([nth_z wvals (pos + n k)], w, pos)
+  | IWinTakeLast k => ([match n k with O => [3] | Datatypes.S j => nth_z wvals (pos + j) end], w, pos)
+  | IWinStepBy k t => ([7 :: map (fun i => nth (pos + i * n k) wvals (-3)) (seq 0 (n t))], w, pos)
+  | IChunkNth k => ([match first_chunk with None => [3]
+                     | Some c => two_last (wd c (n k + 2)%nat (windowed_of A64 (Smp F) c b)) end], w, pos)
+  | IChunkSkip k => ([match first_chunk with None => [3]
+                      | Some c => 2 :: map (enc F) (last (wd c (n k + 1)%nat (windowed_of A64 (Smp F) c b)) []) end], w, pos)
+  | IChunkTakeLast k => ([match first_chunk, n k with
+                          | None, _ => [3] | Some _, O => [3]
+                          | Some c, Datatypes.S j => 2 :: map (enc F) (last (wd c (Datatypes.S j) (windowed_of A64 (Smp F) c b)) []) end], w, pos)
+  end.
+
+Fixpoint run_i (w : W) (pos : nat) (ops : list iop) : list (list Z) :=
+  match ops with
+  | [] => []
+  | o :: t => let '(obs, w', pos') := istep w pos o in obs ++ enc_hint (w_size_hint w') :: run_i w' pos' t
+  end.
+End RunI.
+
+(* np: number of window phases/values the harness tabulates (covers every index the ops reach) *)
+Definition run_icase (wk : wkind) (fk : fkind) (nch b h np : Z) (data : list (list Z)) (ops : list iop) (wv : list Z)
+  : list (list Z) :=
+  let F := fmt_of fk in
+  let ph := f64_phases (n b) (n np) in
+  let wf := wfun_of wk (combine ph wv) in
+  let wvals := map (fun p => F64.bits (wf (F64.of_bits p))) ph in
+  (100 :: ph) :: (101 :: wvals) ::
+  run_i F wf (n nch) wvals (w_new (map (map (dec F)) data) (n b) (n h)) 0 ops.
+
 Definition zll_eqb (a b : list (list Z)) : bool :=
   if list_eq_dec (list_eq_dec Z.eq_dec) a b then true else false.
 
@@ -166,6 +239,7 @@ Definition run_case (c : wcase) (o : list (list Z)) : list (list Z) :=
   match c with
   | WCase wk fk nch b h maxn data => run_wcase wk fk nch b h maxn data (obs_data 101 o)
   | HCase ps qs => run_hcase ps qs (obs_data 110 o) (obs_data 116 o)
+  | ICase wk fk nch b h np data ops => run_icase wk fk nch b h np data ops (obs_data 101 o)
   end.
 
 Definition check (c : wcase * list (list Z)) : bool := zll_eqb (run_case (fst c) (snd c)) (snd c).
